@@ -122,7 +122,7 @@ def bounds(tier):
 
 def units(tier, seed):
     out = []
-    shard = 700 if tier == "quick" else 2500
+    shard = 400 if tier == "quick" else 2500
     small = []
     for l in _layouts(tier):
         n = _npatterns(l)
